@@ -121,6 +121,20 @@ class InputExp(_Validation, fsm.FSM):
             self.sdata['input'] = self._validate(initdef)
         self._expired = self._validate(expired)
 
+    def _restore_state(self, istate: Sequence, /) -> None:
+        """
+        Restore the saved state.
+
+        The saved value passes through the validation again, exactly
+        like the restored value of an Input. A value that is not valid
+        (any more) makes the restore fail before anything is restored
+        and the block gets initialized in the regular way.
+        """
+        if istate[0] == 'valid':
+            sdata = istate[2]
+            istate = (*istate[:2], {**sdata, 'input': self._validate(sdata['input'])})
+        super()._restore_state(istate)
+
     def cond_put(self) -> bool:
         data = fsm.fsm_event_data.get()
         value = data['value']
